@@ -81,6 +81,59 @@ def collect_refs(d, out):
             collect_refs(v, out)
 
 
+def rare_schema_case(rng, rec, fam):
+    """supported but rarely used shapes: Final[...], LiteralString, dataclass(slots=True) with and without defaults, a serialize=
+    function annotated to return a union."""
+    from jsonschema import Draft202012Validator
+    from mashumaro.jsonschema import build_json_schema
+    slots = rng.random() < 0.6
+    base = "(DataClassDictMixin)" if rng.random() < 0.4 and not slots else ""
+    ret = rng.choice(["Optional[str]", "Union[int, str]", "Union[str, None, List[int]]", "Optional[List[Optional[str]]]"])
+    src = ("from typing_extensions import LiteralString\n"
+           f"def render(v) -> {ret}:\n    return None\n"
+           f"@dataclass{'(slots=True)' if slots else ''}\nclass RS{base}:\n    req: int\n    fin: Final[int] = 1\n    ls: LiteralString = 'x'\n"
+           "    fac: List[int] = field(default_factory=list)\n    od: Optional[datetime.date] = None\n"
+           "    ov: datetime.date = field(default=datetime.date(2000, 1, 1), metadata=field_options(serialize=render))\n"
+           "    fo: Final[Optional[str]] = None\n")
+    try:
+        fam.exec_src(src)
+    except Exception as e:
+        rec.count("rare_schema_class_rejected")
+        return
+    RS = fam.module.RS
+    for all_refs in (False, True):
+        rec.evaluation()
+        facts = {"kind": "rare-schema", "slots": slots}
+        try:
+            s = build_json_schema(RS, all_refs=all_refs)
+            sd = s.to_dict()
+            json.dumps(sd)
+            Draft202012Validator.check_schema(sd)
+        except RecursionError:
+            rec.violation("rare-schema:RecursionError", {"source": src, "all_refs": all_refs}, dict(facts, exc="RecursionError"))
+            continue
+        except Exception as e:
+            rec.violation(f"rare-schema:{type(e).__name__}", {"source": src, "all_refs": all_refs, "error": f"{type(e).__name__}: {e}"[:300]}, dict(facts, exc=type(e).__name__))
+            continue
+        body = (sd.get("$defs") or {}).get("RS", sd) if all_refs else sd
+        props = body.get("properties") or {}
+        problems = []
+        if (props.get("fin") or {}).get("type") != "integer" or (props.get("fin") or {}).get("default") != 1:
+            problems.append(f"fin: {props.get('fin')!r}")
+        if (props.get("ls") or {}).get("type") != "string":
+            problems.append(f"ls: {props.get('ls')!r}")
+        if "default" in (props.get("req") or {}) or "default" in (props.get("fac") or {}) or body.get("required") != ["req"]:
+            problems.append(f"req / fac / required: {props.get('req')!r} {props.get('fac')!r} {body.get('required')!r}")
+        if not (props.get("ov") or {}).get("anyOf"):
+            problems.append(f"ov: {props.get('ov')!r}")
+        if problems:
+            rec.violation("rare-schema:wrong-description", {"source": src, "all_refs": all_refs, "problems": problems, "schema": common.short(sd, 600)}, facts)
+        else:
+            rec.count("schemas_ok")
+            rec.count("rare_schemas_ok")
+            rec.nontrivial(("rare-schema", slots, base, ret, all_refs))
+
+
 def config_override_case(rng, rec, fam):
     """Config.json_schema: a hand-written schema for a member REPLACES what the builder would derive (also for members the builder
     cannot describe at all: an opaque third-party type, a reference back to the class itself); additionalProperties as given."""
@@ -266,6 +319,8 @@ def run_case(seed, tier, rec, st):
             return plugin_chain_case(rng, rec, fam)
         elif kind < 0.30:
             return config_override_case(rng, rec, fam)
+        elif kind < 0.32:
+            return rare_schema_case(rng, rec, fam)
         elif kind < 0.33:
             # field-level overrides on collections whose ELEMENTS are composite (Optional / tuple / NamedTuple members): the
             # option is the field's, the element positions below it are described by the built-in rules
